@@ -153,6 +153,13 @@ class FunctionOrder:
                 if last_attr(n) == "join" and n.args and self.is_unordered(n.args[0]) and isinstance(n.func, ast.Attribute) \
                         and isinstance(n.func.value, ast.Constant):
                     out.append(Hit("S1-join", n, "str.join over an unordered collection"))
+                # a list extended with an unordered collection (directly, or through a generator / comprehension over one) keeps that order
+                if isinstance(n.func, ast.Attribute) and n.func.attr == "extend" and len(n.args) == 1:
+                    a0 = n.args[0]
+                    unordered = self.is_unordered(a0) or (isinstance(a0, (ast.GeneratorExp, ast.ListComp))
+                                                         and any(self._is_set_typed(g.iter) for g in a0.generators))
+                    if unordered and not isinstance(a0, ast.ListComp):      # a list comprehension is reported as S1-listcomp already
+                        out.append(Hit("S1-extend", n, "list.extend(<unordered>) appends the elements in an arbitrary order"))
                 if isinstance(n.func, ast.Attribute) and n.func.attr == "pop" and not n.args and self._is_set_typed(n.func.value):
                     p = source.parent(n)
                     out.append(Hit("S3-pop", n, "set.pop() selects an arbitrary element"))
